@@ -25,9 +25,9 @@ def run(ctx):
                     rule="1-4 services x 1-3 rounds, per-attempt behaviours from {correct, flipped bit, short, long, wrong Content-Length, "
                          "chunked ok/long/short/cut/flipped, 404, 403, 408, 429, 500, 503, connection error}, contents of 0/1/11/~100/4096 bytes, "
                          "with and without size hint; 12% of the hinted non-file blocks carry a size hint that is NOT the size of the data "
-                         "with that hash (-2..+3), two thirds of those with scripts in which every 200 answer declares its length and an "
-                         "intact answer comes early (judged by the locator clauses of spec_b: digest and size of what is delivered as a "
-                         "success); one case in six is a retry stratum (Retries 2-3, per attempt 55% transient / 30% 404 / 5% 403 / "
+                         "with that hash (-2..+3), answers with and without Content-Length (one third of those blocks with declared-length-only "
+                         "scripts), an intact answer early (judged by the locator clauses of spec_b: digest and size of what is delivered "
+                         "as a success, for every kind of answer since fix F25); one case in six is a retry stratum (Retries 2-3, per attempt 55% transient / 30% 404 / 5% 403 / "
                          "10% 200) for the error class of reads that fail after several rounds, judged per operation against the "
                          "answers to its own requests (the request log is cut by the per-operation request counts); operations Get (ReadAll/ReadFull/WriteTo/Close), ReadAt, concurrent ReadAt, "
                          "CollectionFileReader; 12% of the cases over real loopback HTTP; non-trivial = at least two requests reached the services",
